@@ -126,16 +126,31 @@ def mapping(cur_fn, ref_fn) -> dict[str, str]:
                     votes.setdefault(x.id, {}).setdefault(y.id, 0)
                     votes[x.id][y.id] += 1
     out: dict[str, str] = {}
-    taken: dict[str, str] = {}
+    groups: dict[str, list[str]] = {}
     for cur, cand in votes.items():
         if len(cand) != 1:
             continue                      # inconsistent: keep the name
-        ref = next(iter(cand))
-        if ref in taken and taken[ref] != cur:
-            out.pop(taken[ref], None)     # not injective: drop both
+        groups.setdefault(next(iter(cand)), []).append(cur)
+    for ref, curs in groups.items():
+        if len(curs) == 1:
+            out[curs[0]] = ref
             continue
-        taken[ref] = cur
-        out[cur] = ref
+        # several current locals correspond to one reference local (typically the locals of two inlined copies of
+        # a helper): merging them is sound when their occurrence ranges are disjoint and each range starts with a
+        # definition (then no value flows from one range into the next)
+        ranges = []
+        for c in curs:
+            occ = [(i, n) for i, h in enumerate(hc) for n in ast.walk(h) if isinstance(n, ast.Name) and n.id == c]
+            if not occ or not isinstance(occ[0][1].ctx, ast.Store) and not _first_is_store(hc[occ[0][0]], c):
+                ranges = None
+                break
+            ranges.append((occ[0][0], occ[-1][0]))
+        if ranges is None:
+            continue
+        ranges.sort()
+        if all(ranges[i][1] < ranges[i + 1][0] for i in range(len(ranges) - 1)):
+            for c in curs:
+                out[c] = ref
     # never rename onto a name that is live in the function under a different role
     params_c = _params(cur_fn)
     used = {n.id for n in ast.walk(cur_fn) if isinstance(n, ast.Name)}
@@ -149,6 +164,14 @@ def mapping(cur_fn, ref_fn) -> dict[str, str]:
         for cur in bad:
             del safe[cur]
     return safe
+
+
+def _first_is_store(header, name) -> bool:
+    """in this statement header, is `name` written (loop target / assignment target) and not read before that?
+    (for `for x in f(y)` and `x = e` the only occurrence is the target)"""
+    loads = [n for n in ast.walk(header) if isinstance(n, ast.Name) and n.id == name and isinstance(n.ctx, ast.Load)]
+    stores = [n for n in ast.walk(header) if isinstance(n, ast.Name) and n.id == name and isinstance(n.ctx, ast.Store)]
+    return bool(stores) and not loads
 
 
 def apply(cur_fn, m: dict[str, str]) -> int:
